@@ -140,10 +140,11 @@ def translate_source():
                 h.update(open(os.path.join(root, f), "rb").read())
     h.update(open(os.path.join(ROOT, "tools/cxx2coq.py"), "rb").read())
     h.update(open(os.path.join(ROOT, "tools/cxxvec2coq.py"), "rb").read())
+    h.update(open(os.path.join(ROOT, "tools/cxxloop2coq.py"), "rb").read())
     tag = "(* source-hash %s *)" % h.hexdigest()
-    dst = os.path.join(COQ, "gen/Gen.v"); dstv = os.path.join(COQ, "gen/GenVec.v")
+    dst = os.path.join(COQ, "gen/Gen.v"); dstv = os.path.join(COQ, "gen/GenVec.v"); dstl = os.path.join(COQ, "gen/GenLoop.v")
     with Lock("translate_source"):
-        if os.path.exists(dst) and tag in open(dst).read(200) and os.path.exists(dstv) and tag in open(dstv).read(200):
+        if all(os.path.exists(d) and tag in open(d).read(200) for d in (dst, dstv, dstl)):
             return True, "cached"
         # the SSE / AVX2 kernels
         tmpv = dstv + ".tmp"
@@ -157,9 +158,17 @@ def translate_source():
         if rc != 0 or not os.path.exists(tmp):
             # the translator cannot read the source any more: leave an empty module so that the equality proofs fail (obligation broken)
             open(dst, "w").write(tag + "\n(* translation failed: %s *)\n" % out[-500:].replace("*)", "* )"))
+            open(dstl, "w").write(tag + "\n(* not translated: Gen.v missing *)\n")
             return True, "translation failed (GenEq.v will not build)"
         open(dst, "w").write(tag + "\n" + open(tmp).read())
         os.remove(tmp)
+        # the loop structure of the transforms (reads Gen.v / GenVec.v to call the definitions already generated)
+        tmpl = dstl + ".tmp"
+        rcl, outl = sh([sys.executable, os.path.join(ROOT, "tools/cxxloop2coq.py"), REPO, tmpl, dst, dstv], timeout=900)
+        if rcl != 0 or not os.path.exists(tmpl):
+            open(dstl, "w").write(tag + "\n(* translation failed: %s *)\n" % outl[-500:].replace("*)", "* )"))
+        else:
+            open(dstl, "w").write(tag + "\n" + open(tmpl).read()); os.remove(tmpl)
     return True, "regenerated"
 
 
@@ -180,9 +189,9 @@ def read_params():
 
 # ---------------------------------------------------------------- prove
 def coq_makefile():
-    if not os.path.exists(os.path.join(COQ, "gen/Gen.v")) or not os.path.exists(os.path.join(COQ, "gen/GenVec.v")):
+    if not all(os.path.exists(os.path.join(COQ, g)) for g in ("gen/Gen.v", "gen/GenVec.v", "gen/GenLoop.v")):
         translate_source()
-    vs = sorted(f for f in os.listdir(COQ) if f.endswith(".v") and f != "Extract.v") + ["gen/Params.v", "gen/Gen.v", "gen/GenVec.v"]
+    vs = sorted(f for f in os.listdir(COQ) if f.endswith(".v") and f != "Extract.v") + ["gen/Params.v", "gen/Gen.v", "gen/GenVec.v", "gen/GenLoop.v"]
     txt = "-Q . NTT\n" + "\n".join(vs) + "\n"
     p = os.path.join(COQ, "_CoqProject")
     if not os.path.exists(p) or open(p).read() != txt or not os.path.exists(os.path.join(COQ, "Makefile")):
